@@ -35,9 +35,16 @@ P_churn2 == (1 :> <<ld(1), ex>>) @@ (2 :> <<st(1)>>) @@ (3 :> <<ld(1), dg, dothe
 \* generation wrap (GenMod small, fallback forced by NF = 0)
 P_wrap == (1 :> <<ld(1), dg, ld(1), dg, ld(1), dg>>) @@ (2 :> <<st(1), st(1)>>)
 P_wrapw == (1 :> <<lf(1), dh, st(1), lf(1), dh>>) @@ (2 :> <<st(1)>>)
+cn(c)  == [k |-> "cnew", c |-> c]
+cl     == [k |-> "cload", c |-> 0]
+cd     == [k |-> "cdrop", c |-> 0]
+\* Cache: new, loads, drop against two stores
+P_cache == (1 :> <<cn(1), cl, cl, cd>>) @@ (2 :> <<st(1), st(1)>>)
+P_cache2 == (1 :> <<cn(1), cl, cd>>) @@ (2 :> <<st(1)>>) @@ (3 :> <<cn(1), cl, cd>>)
 \* programs for schedule extraction (tools/cover.py)
 P_cov_a == (1 :> <<ld(1), dg, ld(1), dg, ex>>) @@ (2 :> <<st(1), ex>>) @@ (3 :> <<st(1), ex>>)
 P_cov_c == (1 :> <<rcu(1), dh, ex>>) @@ (2 :> <<st(1), ex>>) @@ (3 :> <<ld(1), dg, ex>>)
 P_cov_d == (1 :> <<lf(1), dh, lf(1), dh, ex>>) @@ (2 :> <<sw(1), dh, st(1), ex>>)
+P_cov_e == (1 :> <<cn(1), cl, cl, cd, ex>>) @@ (2 :> <<st(1), st(1), ex>>)
 Executed(X) == hist # <<>> /\ hist[Len(hist)][2] = X
 ====
